@@ -23,7 +23,9 @@ DATAGRAMS = [b'{"SECoP": "discover"}', b'{"SECoP":"discover","x":1}', b'{"SECoP"
              # longer than the receive buffer of the unchanged code (the fake socket truncates like UDP does)
              b'[' * 1500, b'{"a":' * 400,
              # the same request in other legal JSON spellings
-             b'{"SECoP": "disc\\u006fver"}', b'{"\\u0053ECoP": "discover"}', b'{"SECoP"\t:\n"discover"}']
+             b'{"SECoP": "disc\\u006fver"}', b'{"\\u0053ECoP": "discover"}', b'{"SECoP"\t:\n"discover"}',
+             # longer than 1024 bytes: a request padded with blanks inside the object, and a request followed by garbage
+             b'{"SECoP": "discover"' + b' ' * 1100 + b'}', b'{"SECoP": "discover"}' + b' ' * 1003 + b'garbage']
 
 
 class FakeSocketModule:
@@ -184,8 +186,8 @@ def run_datagrams(env, p):
 
     def is_discover(b):
         try:
-            o = json.loads(b[:1024].decode('utf-8'))
-        except Exception:
+            o = json.loads(b.decode('utf-8'))      # the datagram as it was sent (a receive buffer must not cut it)
+        except (ValueError, RecursionError):
             return False
         return isinstance(o, dict) and o.get('SECoP') == 'discover'
     want = sum(1 for i in seq if is_discover(DATAGRAMS[i])) + 1
